@@ -413,6 +413,49 @@ func main() {
 		}
 	}
 	sort.Strings(caseTags)
+	// HOW toCoreTestSuite reaches the nested suites: "recursive" = a range directly over <param>.TestSuites whose body
+	// calls toCoreTestSuite on the range variable; "none" = TestSuites is not mentioned; anything else (worklists,
+	// indexes, helper calls) is "other:<shape>" and is not accepted by FactsOK.
+	tcs := xr.Func("toCoreTestSuite")
+	traversal := "none"
+	if strings.Contains(xr.Src(tcs.Body), ".TestSuites") {
+		traversal = "other"
+		param := tcs.Type.Params.List[0].Names[0].Name
+		nRanges := 0
+		ast.Inspect(tcs.Body, func(n ast.Node) bool {
+			r, ok := n.(*ast.RangeStmt)
+			if !ok {
+				return true
+			}
+			nRanges++
+			v, _ := r.Value.(*ast.Ident)
+			if xr.Src(r.X) != param+".TestSuites" || v == nil {
+				if strings.Contains(xr.Src(r), "TestSuites") || strings.Contains(xr.Src(r.X), "pending") {
+					traversal = "other:range over " + xr.Src(r.X)
+				}
+				return true
+			}
+			rec := false
+			ast.Inspect(r.Body, func(m ast.Node) bool {
+				if c, ok := m.(*ast.CallExpr); ok && xr.Src(c.Fun) == "toCoreTestSuite" && len(c.Args) == 1 && xr.Src(c.Args[0]) == v.Name {
+					rec = true
+				}
+				return true
+			})
+			// the recursive result's cases must be appended, and the loop must not touch anything else of the walk
+			if rec && strings.Contains(xr.Src(r.Body), ".TestCases...)") && len(r.Body.List) == 1 {
+				traversal = "recursive"
+			} else {
+				traversal = "other:range body " + xr.Src(r.Body)
+			}
+			return false
+		})
+		// every mention of TestSuites must be that one range
+		if traversal == "recursive" && strings.Count(xr.Src(tcs.Body), "TestSuites") != 1 {
+			traversal = "other:TestSuites used more than once"
+		}
+	}
+	out.Def("nestedTraversal", "String", xlib.LeanStr(traversal))
 	out.Def("nestedSuiteField", "Bool", xlib.LeanBool(nested))
 	out.Def("caseTags", "List String", xlib.LeanStrList(caseTags))
 	// the synthetic case built for a bare top-level <testcase>: which fields of core.TestCase are set
